@@ -9,7 +9,7 @@ claimed=$(python3 -c "import json;print(' '.join(c['property_id'] for c in json.
 mkdir -p /tmp/evsave && cp /verif/evidence/*.json /tmp/evsave/
 for id in "$@"; do
   d=/verif/seeded/$id; prop=${id%%_*}; run=$prop
-  case " $claimed " in *" $prop "*) ;; *) run=C04;; esac
+  case " $claimed " in *" $prop "*) ;; *) run=C04; [ "$prop" = C10 ] && run=C09;; esac
   if ! git -C /repo apply "$d/patch.diff" 2>/dev/null; then
     python3 -c "import json;print(json.dumps({'id':'$id','property':'$prop','status':'patch-does-not-apply'}))" >> "$out"; continue
   fi
